@@ -5,6 +5,8 @@ import (
 	"math/rand"
 	"os"
 	"path/filepath"
+	"sync"
+	"sync/atomic"
 	"time"
 
 	"github.com/ErdemOzgen/blackdagger/internal/dag"
@@ -90,10 +92,68 @@ func c14Check(c *core.Ctx, idx int, names []string, deps map[string][]string, or
 		c.Violate(idx, key, fmt.Sprintf("NewExecutionGraph returned err=%v but the independent check says wellFormed=%v for %v", err, want, desc()), desc())
 		return false
 	}
+	// the retry path admits recorded steps through its own constructor
+	if len(names) <= 4 || c14Counter.Add(1)%16 == 0 {
+		nodes := make([]*scheduler.Node, 0, len(steps))
+		for i, st := range steps {
+			status := []scheduler.NodeStatus{scheduler.NodeStatusSuccess, scheduler.NodeStatusError, scheduler.NodeStatusCancel, scheduler.NodeStatusSkipped}[(i+len(steps))%4]
+			nodes = append(nodes, scheduler.NewNode(st, scheduler.NodeState{Status: status}))
+		}
+		_, rerr := scheduler.NewExecutionGraphForRetry(c14Logger, nodes...)
+		c.Count("obligations", 1)
+		c.Count("retry_constructor_checked", 1)
+		if (rerr == nil) != want {
+			key := "retry-admitted-malformed"
+			if want {
+				key = "retry-refused-wellformed"
+			}
+			c.Violate(idx, key, fmt.Sprintf("NewExecutionGraphForRetry (the retry path) returned err=%v but the independent check says wellFormed=%v for %v", rerr, want, desc()), desc())
+			return false
+		}
+	}
 	return true
 }
 
+var c14Counter atomic.Int64
+
+// c14Concurrent: graphs are admitted by several goroutines at once (the web
+// server builds a graph per status request): admission must depend on the
+// graph alone.
+func c14Concurrent(c *core.Ctx) {
+	rounds := c.Pick(6000, 100000)
+	if c.Race {
+		rounds = c.Pick(1500, 20000)
+	}
+	var wg sync.WaitGroup
+	for w := 0; w < 12; w++ {
+		if !c.Mine(w) {
+			continue
+		}
+		wg.Add(1)
+		go func(w int) {
+			defer wg.Done()
+			r := c.Rand("concurrent", w)
+			for i := 0; i < rounds; i++ {
+				names, deps, kind := c14Random(r)
+				if len(names) > 12 {
+					continue
+				}
+				c14Check(c, (1<<24)+w, names, deps, r.Perm(len(names)), func() any {
+					return map[string]any{"kind": kind, "names": names, "depends": deps, "concurrent_worker": w}
+				})
+			}
+		}(w)
+	}
+	wg.Wait()
+	c.DistinctAdd(int64(rounds))
+}
+
+
 func c14Body(c *core.Ctx) {
+	if c.Mode == "concurrent" {
+		c14Concurrent(c)
+		return
+	}
 	vexec.Init()
 	idx := 0
 	// exhaustive: every edge set incl. self-loops on 1..4 steps; thorough: + all loop-free edge sets on 5
@@ -304,9 +364,11 @@ func c14Random(r *rand.Rand) ([]string, map[string][]string, string) {
 func init() {
 	core.Register(&core.Prop{ID: "C14", Level: "exploration", Body: c14Body, CrashKey: crashKeyGeneric, MinDistinct: 1000,
 		Passes: func(tier string) []core.Pass {
-			return []core.Pass{{Name: "main", Mode: "controlled", Shards: 16, Timeout: 40 * time.Minute}}
+			return []core.Pass{{Name: "main", Mode: "controlled", Shards: 16, Timeout: 40 * time.Minute},
+				{Name: "concurrent", Mode: "concurrent", Shards: 1, Timeout: 40 * time.Minute},
+				{Name: "concurrent-race", Mode: "concurrent", Race: true, Shards: 1, Timeout: 40 * time.Minute}}
 		},
 		Exhaustive:  func(tier string) bool { return true },
-		Rule:        "Enumerated completely (exhaustive=true for this part): every edge set INCLUDING self-loops on 1..4 named steps (2+16+512+65536 graphs) and all 2^20 loop-free edge sets on 5 steps; thorough enumerates all 2^25 edge sets (self-loops included) on 5 steps. Each graph's steps are declared in a PRNG permutation so that map-iteration order inside the implementation varies. Plus random graphs of 2..40 steps with planted defects (self-loop, cycle with tail, two disjoint cycles, cycle behind a source, dangling names incl. near-miss spellings, duplicate edges). Oracle: scheduler.NewExecutionGraph(...) == nil error iff an independent iterative DFS says every name resolves and there is no cycle. Agent part: malformed graphs go through the real loader and Agent.Run: the run must return an error, the scripted executor must see no creator/Run() call (steps and handlers), the history directory must stay empty and no socket file may remain. distinct_nontrivial counts enumerated graphs (pairwise distinct by construction) + distinct random/agent cases.",
+		Rule:        "Enumerated completely (exhaustive=true for this part): every edge set INCLUDING self-loops on 1..4 named steps (2+16+512+65536 graphs) and all 2^20 loop-free edge sets on 5 steps; thorough enumerates all 2^25 edge sets (self-loops included) on 5 steps. Each graph's steps are declared in a PRNG permutation so that map-iteration order inside the implementation varies. Plus random graphs of 2..40 steps with planted defects (self-loop, cycle with tail, two disjoint cycles, cycle behind a source, dangling names incl. near-miss spellings, duplicate edges). Oracle: scheduler.NewExecutionGraph(...) == nil error — and, for every graph up to 4 steps and every 16th larger one, scheduler.NewExecutionGraphForRetry(recorded nodes) == nil error (the retry path) — iff an independent iterative DFS says every name resolves and there is no cycle. Agent part: malformed graphs go through the real loader and Agent.Run: the run must return an error, the scripted executor must see no creator/Run() call (steps and handlers), the history directory must stay empty and no socket file may remain. Concurrent passes (plain and under the race detector): 12 goroutines admit random graphs at the same time, same oracle. distinct_nontrivial counts enumerated graphs (pairwise distinct by construction) + distinct random/agent cases.",
 		Assumptions: []string{"step names are distinct (hypothesis of the statement)", "graphs above 5 steps are sampled, not enumerated"}})
 }
